@@ -25,12 +25,21 @@ LowerP(s) == [i \in 1..Len(s) |-> LcP(s[i])]
 IsPrefix(p, s) == Len(p) <= Len(s) /\ SubSeq(s, 1, Len(p)) = p
 EndsWith(s, c) == Len(s) > 0 /\ s[Len(s)] = c
 
-(* ---- path regex menu *)
+(* ---- path regex menu.  A regex rule holds iff Go's regexp finds a match ANYWHERE in the path (unanchored search).
+   The menu covers the match-position classes: match at position 0, match beginning inside the path, match only at
+   the end ($), ^-anchored, patterns that start with a literal / with a class / with a group of alternatives, and
+   patterns that match the empty string; the paths of the universe give both sides of every class. *)
+Contains(p, s) == \E k \in 1..Len(s) : k + Len(p) - 1 <= Len(s) /\ SubSeq(s, k, k + Len(p) - 1) = p
 PathRe(re, s) ==
-  CASE re = "^/a"     -> IsPrefix(<<"/", "a">>, s)
-    [] re = "b$"      -> EndsWith(s, "b")
-    [] re = "^/[ab]$" -> s = <<"/", "a">> \/ s = <<"/", "b">>
-    [] re = "/a/.+"   -> \E i \in 1..Len(s) : i + 3 <= Len(s) /\ SubSeq(s, i, i + 2) = <<"/", "a", "/">>
+  CASE re = "^/a"     -> IsPrefix(<<"/", "a">>, s)                                  \* ^-anchored literal
+    [] re = "b$"      -> EndsWith(s, "b")                                           \* literal, only at the end
+    [] re = "^/[ab]$" -> s = <<"/", "a">> \/ s = <<"/", "b">>                       \* anchored both sides
+    [] re = "/a/.+"   -> \E i \in 1..Len(s) : i + 3 <= Len(s) /\ SubSeq(s, i, i + 2) = <<"/", "a", "/">>   \* literal start, position 0 or inside
+    [] re = "a/b"     -> Contains(<<"a", "/", "b">>, s)                             \* literal, never at position 0
+    [] re = "(a|b)/a" -> Contains(<<"a", "/", "a">>, s) \/ Contains(<<"b", "/", "a">>, s)     \* starts with alternatives, inside
+    [] re = "[ab]b$"  -> Len(s) >= 2 /\ s[Len(s)] = "b" /\ s[Len(s) - 1] \in {"a", "b"}      \* starts with a class, at the end
+    [] re = "b*"      -> TRUE                                                       \* matches the empty string
+    [] re = "^$"      -> s = <<>>                                                   \* only the empty path
     [] re = ".*"      -> TRUE
     [] OTHER          -> Assert(FALSE, <<"regex not in the menu", re>>)
 
@@ -46,10 +55,12 @@ ValReSet(re) ==
     [] re = "^(GET|PUT)$" -> {"GET", "PUT"}
     [] re = "q=1"   -> {"q=1", "q=1&r=2"}
     [] re = "^2$"   -> {"2"}
+    [] re = "1$"    -> {"v1", "xv1", "s1", "q=1", "1"}           \* only at the end
+    [] re = "[sx]"  -> {"xv1", "s1", "s2", "GETs"}               \* starts with a class, anywhere
     [] OTHER        -> Assert(FALSE, <<"value regex not in the menu", re>>)
-ValRes == {"^v", "v1", "^v1$", "s.*", "^s.*", ".*", "^(GET|PUT)$", "q=1", "^2$"}
+ValRes == {"^v", "v1", "^v1$", "s.*", "^s.*", ".*", "^(GET|PUT)$", "q=1", "^2$", "1$", "[sx]"}
 ValRe(re, val) == Assert(val \in AllVals, <<"value not in the universe", val>>) /\ val \in ValReSet(re)
-PathRes == {"^/a", "b$", "^/[ab]$", "/a/.+", ".*"}
+PathRes == {"^/a", "b$", "^/[ab]$", "/a/.+", "a/b", "(a|b)/a", "[ab]b$", "b*", "^$", ".*"}
 
 HeaderVal(req, n) == CASE n = "h1" -> req.hd.h1 [] n = "h2" -> req.hd.h2 [] n = "service" -> req.hd.service
                        [] OTHER -> Absent
@@ -191,6 +202,9 @@ RulesQuick ==
     R("prefix", PR, "", <<>>, <<>>),
     R("regex", <<>>, "/a/.+", <<>>, <<>>),
     R("regex", <<>>, "^/[ab]$", <<H("h1", "v1", TRUE)>>, <<>>),
+    R("regex", <<>>, "b$", <<>>, <<>>),
+    R("regex", <<>>, "a/b", <<H("h1", "1$", TRUE)>>, <<>>),
+    R("regex", <<>>, "(a|b)/a", <<>>, <<>>),
     R("rpc", <<>>, "", <<H("service", "s1", FALSE)>>, <<>>),
     R("rpc", <<>>, "", <<H("service", ".*", FALSE)>>, <<>>),
     R("rpc", <<>>, "", <<H("h1", "v1", FALSE), H("service", "^s.*", TRUE)>>, <<>>),
@@ -206,7 +220,10 @@ RulesQuick ==
 RulesThorough == RulesQuick \cup
   { R("path", PAB, "", <<H("method", "POST", FALSE)>>, <<>>),
     R("prefix", PAB, "", <<>>, <<>>),
-    R("regex", <<>>, "b$", <<>>, <<>>),
+    R("regex", <<>>, "[ab]b$", <<>>, <<>>),
+    R("regex", <<>>, "b*", <<H("service", "[sx]", TRUE)>>, <<>>),
+    R("regex", <<>>, "^$", <<>>, <<>>),
+    R("rpc", <<>>, "", <<H("service", "[sx]", TRUE), H("h1", "1$", TRUE)>>, <<>>),
     R("regex", <<>>, "^/a", <<H("h2", "v1", FALSE)>>, <<>>),
     R("regex", <<>>, ".*", <<>>, <<>>),
     R("rpc", <<>>, "", <<>>, <<>>),
@@ -219,7 +236,7 @@ RulesThorough == RulesQuick \cup
 
 Hd(a, b, c) == [h1 |-> a, h2 |-> b, service |-> c]
 Rq(path, method, query, hd) == [path |-> path, method |-> method, query |-> query, hd |-> hd]
-PathsQ == { PA, PAm, PAB, Pab, PB, PR, <<"/", "b", "/", "a">> }
+PathsQ == { PA, PAm, PAB, Pab, PB, PR, <<"/", "b", "/", "a">>, <<"/", "b", "/", "a", "/", "b">> }
 ReqsRQuick ==
   { Rq(p, m, "", Hd(a, Absent, Absent)) : p \in PathsQ, m \in {"GET", "POST"}, a \in {Absent, "v1", "v2", "xv1"} }
   \cup { Rq(p, "GET", q, Hd(a, b, c)) : p \in {PA, PB}, q \in {"", "q=1"}, a \in {Absent, "v1"}, b \in {Absent, "v1"},
